@@ -127,6 +127,10 @@ def relocations(name: str, mid: int, fields: Fields) -> List[Tuple[str, Dict[str
         ("comments", {"root.yaml": {"imports": ["structs.yaml", "c.yaml"]}, "structs.yaml": sd, "c.yaml": COMMENT_TEXT.format(body=body)}, "root.yaml", {}),
         ("fields-before-id", {"root.yaml": {"imports": ["structs.yaml", "k.yaml"]}, "structs.yaml": sd, "k.yaml": _fields_first(name, mid, fields)}, "root.yaml", {}),
         ("with-core", {"root.yaml": {**sd, "message_defs": md}}, "root.yaml", {"import_coredefs": True}),
+        # the struct used as a field type changes size and alignment: the message's own text (field names + type TEXTS) does not
+        ("struct-edited-wider", {"root.yaml": {"struct_defs": {"HS": {"fields": {"u": "double", "v": "int16"}}}, "message_defs": md}}, "root.yaml", {}),
+        ("struct-edited-narrower", {"root.yaml": {"struct_defs": {"HS": {"fields": {"u": "char"}}}, "message_defs": md}}, "root.yaml", {}),
+        ("struct-is-alias", {"root.yaml": {"aliases": {"HS": "int64"}, "message_defs": md}}, "root.yaml", {}),
         ("no-autopad-validate", {"root.yaml": {**sd, "message_defs": md}}, "root.yaml", {"validate_alignment": False}),
     ]
     return out
@@ -258,22 +262,36 @@ def cross_language(bs: List[Fields], d: str) -> Tuple[List[Dict[str, Any]], Dict
     for L in (47, 48, 49, 60):
         nm = ("LONG_NAME_" + "X" * 80)[:L]
         msgs[nm] = {"id": 3800 + L, "fields": {"a": "int32"} if L % 2 else None}
+    # names that contain the prefixes the emitters themselves use (hash_, MT_, MDF_, HASH_ ...), next to their shortened forms
+    for k, nm in enumerate(("hash_config", "geohash_fix", "geofix", "config", "HASH_UPPER", "MT_THING", "THING", "MDF_OTHER", "OTHER", "mt_lower", "lower",
+                            "mid_point", "point", "defines_x", "x_hash_")):
+        msgs[nm] = {"id": 3700 + k, "fields": {"a": "int32"} if k % 2 else None}
     prog = defx.Program({"root.yaml": {"struct_defs": STRUCTS, "message_defs": msgs}})
-    paths = defx.compile_program(prog, d, name="hashes")
+    try:
+        paths = defx.compile_program(prog, d, name="hashes")
+    except Exception as e:
+        return [{"kind": "packed-program-rejected", "exc": f"{type(e).__name__}: {str(e)[:200]}"}], {"hash_comparisons": 0, "messages": len(msgs), "pyfile": None}
     p = defx.parse_model(paths["root"])
     want = {n: int(m.hash[:8], 16) for n, m in p.message_defs.items()}
-    py = defx.sig_python(paths["python"])
-    c = defx.sig_c(paths["c_lang"], d, defx.core_header(d))
-    js = defx.sig_js([paths["javascript"]], d)[paths["javascript"]]
-    ml = defx.run_matlab(paths["matlab"])
-    got = {
-        "python": {n: dd["hash"] for n, dd in py["defs"].items() if dd["msg"]},
-        "c": {k[5:]: _hex(v) for k, v in c["defines"].items() if k.startswith("HASH_")},
-        "js": {k: int(v, 16) for k, v in (js.get("HASH") or {}).items()},
-        "matlab": {k: int(v, 16) for k, v in (ml["RTMA"].get("hash") or {}).items() if isinstance(v, str)},
+    got = {}
+    loaders = {
+        "python": lambda: {n: dd["hash"] for n, dd in defx.sig_python(paths["python"])["defs"].items() if dd["msg"]},
+        "c": lambda: {k[5:]: _hex(v) for k, v in defx.sig_c(paths["c_lang"], d, defx.core_header(d))["defines"].items() if k.startswith("HASH_")},
+        "js": lambda: {k: int(v, 16) for k, v in (defx.sig_js([paths["javascript"]], d)[paths["javascript"]].get("HASH") or {}).items()},
+        "matlab": lambda: {k: int(v, 16) for k, v in (defx.run_matlab(paths["matlab"])["RTMA"].get("hash") or {}).items() if isinstance(v, str)},
     }
+    for lang, load in loaders.items():
+        try:
+            got[lang] = load()
+        except core.HarnessError:
+            raise
+        except BaseException as e:
+            problems.append({"kind": "output-unreadable", "lang": lang, "exc": f"{type(e).__name__}: {str(e)[:160]}"})
+            got[lang] = None
     n = 0
     for lang, table in got.items():
+        if table is None:
+            continue
         for name, h in want.items():
             if "core_defs" in str(p.message_defs[name].src) and lang == "c":
                 continue  # the C back end omits core items by design
@@ -293,7 +311,12 @@ def wire_versions(pyfile: str) -> Tuple[List[Dict[str, Any]], int]:
     from .. import valx
 
     problems = []
-    mod = valx.import_generated(pyfile, f"vf_c13_{os.getpid()}")
+    if pyfile is None:
+        return problems, 0
+    try:
+        mod = valx.import_generated(pyfile, f"vf_c13_{os.getpid()}")
+    except BaseException as e:  # already reported by cross_language as an unreadable output
+        return [{"kind": "output-unreadable", "lang": "python", "exc": f"{type(e).__name__}: {str(e)[:160]}"}], 0
     classes = []
     for m in (mod, cd):
         for k, v in vars(m).items():
